@@ -32,7 +32,7 @@ class C14(Engine):
     property_id = "C14"
     level = "exploration"
     budgets = {
-        "quick": {"runs": 5000, "wall": 80, "min_runs": 200, "min_wall": 30},
+        "quick": {"runs": 12000, "wall": 80, "min_runs": 200, "min_wall": 30},
         "thorough": {"runs": 200000, "wall": 1500, "min_runs": 500, "min_wall": 90},
     }
     rule = (
@@ -128,7 +128,8 @@ class C14(Engine):
 
     # ------------------------------------------------------------------ world
     def _cmds(self, f):
-        return [{"inp": f"c{f['sid']}_{i} " + "x" * f["pad"] + "\n", "rtn": 0, "ts": [f["ts0"] + i, f["ts0"] + i + 0.5]} for i in range(f["ncmds"])]
+        B = _k.TIME_BASE
+        return [{"inp": f"c{f['sid']}_{i} " + "x" * f["pad"] + "\n", "rtn": 0, "ts": [B + f["ts0"] + i * 0.01, B + f["ts0"] + i * 0.01 + 0.005]} for i in range(f["ncmds"])]
 
     def _build_json(self, case, d):
         import xonsh.lib.lazyjson as xlj
@@ -136,7 +137,8 @@ class C14(Engine):
         info = {}
         for f in case["files"]:
             path = os.path.join(d, f"xonsh-{f['sid']}.json")
-            doc = {"cmds": self._cmds(f), "sessionid": f["sid"], "ts": [f["ts0"], f["close"]], "locked": bool(f["locked"])}
+            B = _k.TIME_BASE
+            doc = {"cmds": self._cmds(f), "sessionid": f["sid"], "ts": [B + f["ts0"], None if f["close"] is None else B + f["close"]], "locked": bool(f["locked"])}
             with open(path, "w", newline="\n", encoding="utf-8") as fp:
                 xlj.ljdump(doc, fp, sort_keys=True)
             if f["corrupt"] == "trunc":
@@ -224,6 +226,7 @@ class C14(Engine):
         k = ctx.k
         k.now = max(f["close"] or f["ts0"] for f in case["files"]) + case["now_after"] if case["files"] else 2000.0
         now = k.now
+        k.max_time = now + 900.0
         try:
             if case["backend"] == "json":
                 self._run_json(case, ctx, hj, viol, probes, now)
@@ -257,21 +260,26 @@ class C14(Engine):
         d = os.path.join(ctx.dir, "history_json")
         os.makedirs(d)
         info = self._build_json(case, d)
-        boot = case["boot"]
+        boot = case["boot"] = min(case["boot"], now - 5.0)  # (a live session cannot have started before the last boot)
+        hj.uptime = _Uptime(_k.TIME_BASE + boot)
         # the session that runs the GC (its own file is locked and brand new)
-        me = hj.JsonHistory(filename=os.path.join(d, "xonsh-me.json"), sessionid="me", buffersize=100, gc=False, ts=[now, None], locked=True)
+        me = hj.JsonHistory(filename=os.path.join(d, "xonsh-me.json"), sessionid="me", buffersize=100, gc=False, ts=[_k.TIME_BASE + now, None], locked=True)
         ctx.XSH.history = me
         lives = []
         for li in range(case["live"]):
-            lh = hj.JsonHistory(filename=os.path.join(d, f"xonsh-live{li}.json"), sessionid=f"live{li}", buffersize=2, gc=False, ts=[now - 1, None], locked=True)
+            lh = hj.JsonHistory(filename=os.path.join(d, f"xonsh-live{li}.json"), sessionid=f"live{li}", buffersize=2, gc=False, ts=[_k.TIME_BASE + now - 1, None], locked=True)
             lives.append(lh)
         before = set(os.listdir(d))
         # candidates per the statement
         cands = []
+        empties = []
         stale = 0
         for path, f in info.items():
             if f["corrupt"]:
                 probes["corrupt_member"] += 1
+                if f["corrupt"] == "empty":
+                    # an empty file holds no history and no lock: collecting it is allowed, not required
+                    empties.append(dict(f, ncmds=0, size=0, age_key=(f["close"] or f["ts0"])))
                 continue
             if f["locked"]:
                 if f["ts0"] < boot:
@@ -300,7 +308,7 @@ class C14(Engine):
                 for op in case["live_ops"][li]:
                     if op == "append":
                         n += 1
-                        c = {"inp": f"live{li} cmd {n}\n", "rtn": 0, "ts": [now + n, now + n + 0.5]}
+                        c = {"inp": f"live{li} cmd {n}\n", "rtn": 0, "ts": [_k.TIME_BASE + now + n, _k.TIME_BASE + now + n + 0.5]}
                         appended[li].append(c["inp"])
                         lh.append(c)
                     else:
@@ -318,7 +326,7 @@ class C14(Engine):
         if new_files:
             viol("gc.only_removes", f"garbage collection created files {sorted(new_files)}")
         # ---- safety clauses (always)
-        for p in removed_paths:
+        for p in sorted(removed_paths):
             base = os.path.basename(p)
             if base.startswith(("xonsh-me", "xonsh-live")):
                 viol("gc.never_live", f"GC removed the file of a live session: {base}")
@@ -326,7 +334,7 @@ class C14(Engine):
             f = info.get(p)
             if f is None:
                 continue
-            if f["locked"] and not f["ts0"] < boot:
+            if f["locked"] and not f["corrupt"] and not f["ts0"] < boot:
                 viol("gc.never_locked", f"GC removed {base}, which is locked by a session started after boot (limit {limit} {unit}, force={case['force']})")
                 return
             if f["corrupt"] in ("trunc", "garbage"):
@@ -343,6 +351,7 @@ class C14(Engine):
             if got != appended[li]:
                 viol("gc.never_live", f"live session {li} flushed {appended[li]} but its file holds {got} after GC ran concurrently")
                 return
+        removed_paths = {p for p in removed_paths if p not in {e["path"] for e in empties}} if False else removed_paths
         removed = [c for c in cands if c["path"] in removed_paths]
         # oldest first: the removed candidates form a prefix in age order (ties may be permuted)
         if removed:
@@ -354,37 +363,60 @@ class C14(Engine):
         if case["live"]:
             return
         # ---- exact clauses (quiescent configuration)
+        # two readings: empty files count as (oldest-first) candidates, or they do not exist for GC
+        variants = [cands]
+        if empties:
+            variants.append(sorted(cands + empties, key=lambda c: c["age_key"]))
+        verdicts = []
+        for var in variants:
+            verdicts.append(self._judge_exact(case, var, unit, limit, now, removed_paths, probes if var is cands else None))
+        if any(v is None for v in verdicts):
+            return
+        clause, msg, sig = verdicts[0]
+        viol(clause, msg, **sig)
+
+    def _judge_exact(self, case, cands, unit, limit, now, removed_paths, probes):
+        """None if what GC removed is acceptable for this candidate reading, else (clause, msg, sig)."""
+        ties = len({c["age_key"] for c in cands}) < len(cands)
+        removed = [c for c in cands if c["path"] in removed_paths]
         exp_removed, exp_kept, amt_removed, amt_kept = self._expect(cands, unit, limit, now)
         refuse_must = (not case["force"]) and bool(exp_removed) and unit != "s" and amt_removed > limit
         run_must = case["force"] or not exp_removed or (unit != "s" and amt_kept is not None and amt_removed <= amt_kept and amt_removed < limit)
-        probes["refuse_expected"] += int(refuse_must)
-        probes["noop_in_limit"] += int(not exp_removed)
+        if probes is not None:
+            probes["refuse_expected"] += int(refuse_must)
+            probes["noop_in_limit"] += int(not exp_removed)
+        names = lambda cs: [os.path.basename(c["path"]) for c in cs]  # noqa: E731
         if not exp_removed and removed:
-            viol("gc.noop_in_limit", f"the history already fits {limit} {unit} but GC removed {[os.path.basename(c['path']) for c in removed]}")
-            return
-        if refuse_must:
-            if removed:
-                viol("gc.refuse_unless_forced", f"GC (not forced) discarded {amt_removed} {unit} with a limit of {limit}: more than it can keep; removed {[os.path.basename(c['path']) for c in removed]}")
-            return
-        if run_must and not ties:
-            want = {c["path"] for c in exp_removed}
-            got = {c["path"] for c in removed}
-            if got != want:
-                clause = "gc.maximal_keep" if got > want or (want - got and not got - want and False) else "gc.maximal_keep"
-                if want - got:
-                    clause = "gc.limit_enforced"
-                viol(
-                    clause,
-                    f"limit {limit} {unit} (class {case['limit_class']}, force={case['force']}): GC removed {sorted(os.path.basename(p) for p in got)} but the largest newest set that fits keeps "
-                    f"{[os.path.basename(c['path']) for c in exp_kept]} and removes {sorted(os.path.basename(p) for p in want)}; candidates oldest first {[(os.path.basename(c['path']), c['ncmds'], c['size'], c['age_key']) for c in cands]} now={now}",
-                    removed_too_few=bool(want - got),
-                    removed_too_many=bool(got - want),
-                    limit_is_zero=limit == 0,
-                )
+            return ("gc.noop_in_limit", f"the history already fits {limit} {unit} but GC removed {names(removed)}; candidates oldest first {[(os.path.basename(c['path']), c['ncmds'], c['size'], c['age_key']) for c in cands]}", {})
+        # the refuse rule is judged on what was actually removed (independent of how ties were ordered)
+        if removed and not case["force"] and unit != "s":
+            actual = {"commands": sum(c["ncmds"] for c in removed), "files": len(removed), "b": sum(c["size"] for c in removed)}[unit]
+            if actual > limit:
+                return ("gc.refuse_unless_forced", f"GC (not forced) discarded {actual} {unit} with a limit of {limit}: more than it can keep; removed {names(removed)}", {})
+        if refuse_must and not ties:
+            return None if not removed else ("gc.refuse_unless_forced", f"GC (not forced) removed {names(removed)} although discarding {amt_removed} {unit} exceeds the limit {limit}", {})
+        if not run_must:
+            # between "discards no more than it keeps" and "discards more than the limit": running and refusing are both acceptable,
+            # but if it runs it must remove exactly the expected prefix
+            if not removed:
+                return None
+        if ties:
+            return None
+        want = {c["path"] for c in exp_removed}
+        got = {c["path"] for c in removed}
+        if got == want:
+            return None
+        clause = "gc.limit_enforced" if want - got else "gc.maximal_keep"
+        return (
+            clause,
+            f"limit {limit} {unit} (class {case['limit_class']}, force={case['force']}): GC removed {sorted(os.path.basename(p) for p in got)} but the largest newest set that fits keeps "
+            f"{names(exp_kept)} and removes {sorted(os.path.basename(p) for p in want)}; candidates oldest first {[(os.path.basename(c['path']), c['ncmds'], c['size'], c['age_key']) for c in cands]} now={now}",
+            {"removed_too_few": bool(want - got), "removed_too_many": bool(got - want), "limit_is_zero": limit == 0},
+        )
 
     def _run_sqlite(self, case, ctx, hs, viol, probes):
-        path = os.path.join(ctx.dir, "hist.sqlite")
-        h = hs.SqliteHistory(gc=False, filename=path, sessionid="me")
+        h = hs.SqliteHistory(gc=False, filename=None, sessionid="me")
+        path = h.filename
         ctx.XSH.history = h
         rows = []
         for f in case["files"]:
@@ -404,7 +436,10 @@ class C14(Engine):
         ctx.k.wait_quiescent(60.0, include=lambda r: r.kind == "thread")
         conn = sqlite3.connect(path)
         try:
-            left = conn.execute("SELECT inp, tsb FROM xonsh_history ORDER BY tsb").fetchall()
+            try:
+                left = conn.execute("SELECT inp, tsb FROM xonsh_history ORDER BY tsb").fetchall()
+            except sqlite3.OperationalError:
+                left = []  # nothing was ever appended: no table
         finally:
             conn.close()
         want = rows[total - min(limit, total) :] if limit > 0 else []
